@@ -49,6 +49,20 @@ def find_func(fname, qual):
 
 # ------------------------------------------------------------------ helpers
 
+def find_funcs(fname, qual):
+    """all definitions matching the qualified name (properties with a setter are defined twice); [] if none"""
+    tree = module_ast(fname)
+    nodes = [tree]
+    for p in qual.split('.'):
+        nxt = []
+        for n in nodes:
+            for c in getattr(n, 'body', []):
+                if isinstance(c, (ast.FunctionDef, ast.ClassDef)) and c.name == p:
+                    nxt.append(c)
+        nodes = nxt
+    return nodes
+
+
 def call_name(node):
     """dotted name of a call target: foo / self.foo / a.b.c ; else None"""
     f = node.func if isinstance(node, ast.Call) else node
